@@ -5,6 +5,8 @@
 (* requests with their concrete satoshi amounts.  The harness runs exactly     *)
 (* these cases against the real crates (leg B).                                *)
 (* IOEnv.MCL_TIER = "quick" | "thorough";  IOEnv.MCL_MAGS e.g. "n,g" / "n,g,a" *)
+(* IOEnv.MCL_PART_K / MCL_PART_N: this process prints the requests of the      *)
+(* states whose index is K modulo N (several TLC processes share the work).    *)
 EXTENDS MutualClose, Json, IOUtils, SequencesExt
 
 Tier == IOEnv.MCL_TIER
@@ -30,12 +32,18 @@ StateRec(k) ==
             [vh |-> c.a.vh, vc |-> c.a.vc, hs |-> c.a.sh.id, cs |-> c.a.sc.id, hint |-> c.a.hint,
              allow |-> SetToSeq(c.allow)]]
 
-CaseRec(k, r) ==
-  LET c == ConcReq(StateSeq[k], r) IN
+PartK == CHOOSE x \in 0..63 : ToString(x) = IOEnv.MCL_PART_K
+PartN == CHOOSE x \in 1..64 : ToString(x) = IOEnv.MCL_PART_N
+Mine == {k \in DOMAIN StateSeq : k % PartN = PartK}
+
+CaseRec(k, r, c) ==
   << k, r.entry, SetToSeq(r.allow), c.a.vh, c.a.vc, c.a.sh.id, c.a.sc.id, c.a.hint, r.order, r.hintpos, r.form,
      <<r.d, r.fee, r.hscr, r.cscr, r.hopt, r.copt>> >>
 
-Cases == SetToSeq(UNION {{CaseRec(k, r) : r \in AbsReqs(StateSeq[k], KOf(StateSeq[k]))} : k \in DOMAIN StateSeq})
+CasesOf(k) == LET s == StateSeq[k]
+                   cs == {<<r, ConcReq(s, r)>> : r \in PlausibleReqs(s, KOf(s))} IN
+               {CaseRec(k, p[1], p[2]) : p \in {x \in cs : x[2].ok}}
+Cases == SetToSeq(UNION {CasesOf(k) : k \in Mine})
 
 VARIABLE x
 Init == x = 0
